@@ -9,6 +9,7 @@ import (
 	"runtime"
 	"strings"
 	"sync"
+	"syscall"
 	"testing"
 	"time"
 
@@ -43,7 +44,7 @@ type StopCase struct {
 	RawClient bool            `json:"rawClient,omitempty"` // the client application sits on the session layer (see e2e.Config.RawClient)
 	Sessions  []Sess          `json:"sessions"`
 	IdleMs    int             `json:"idleMs,omitempty"`  // idle period before the action
-	Fault     int             `json:"fault,omitempty"`   // 0 none, 1 TCP reset / UDP black-hole, 2 frozen path (nothing delivered, nothing closed)
+	Fault     int             `json:"fault,omitempty"`   // 0 none, 1 TCP reset / UDP black-hole, 2 frozen path (nothing delivered, nothing closed), 3 (UDP) black-hole and, once data is unacknowledged, every send fails (network unreachable)
 	Action    int             `json:"action"`            // 0 client closes session 0, 1 server closes session 0, 2 client.Stop, 3 server.Stop, 4 both Stops at once
 	Repeat    int             `json:"repeat"`            // how often Close / Stop is repeated (concurrently)
 	Pending   bool            `json:"pending,omitempty"` // writers keep writing into the (possibly stalled) path when the action is issued
@@ -89,6 +90,9 @@ func genStop(t *rapid.T) StopCase {
 	}
 	c.IdleMs = rapid.SampledFrom(idle).Draw(t, "idle")
 	c.Fault = rapid.SampledFrom([]int{0, 0, 0, 1, 2}).Draw(t, "fault")
+	if c.UDP && rapid.IntRange(0, 7).Draw(t, "sendErrors") == 0 {
+		c.Fault = 3
+	}
 	c.Action = rapid.IntRange(0, 4).Draw(t, "action")
 	c.Repeat = rapid.IntRange(1, 3).Draw(t, "repeat")
 	c.Pending = rapid.IntRange(0, 2).Draw(t, "pending") == 0
@@ -432,6 +436,9 @@ func propStop(c StopCase) (o pbt.Outcome) {
 				l.Freeze(true)
 			}
 		}
+	case 3:
+		pn.SetBlackhole(true)
+		defer pn.SetSendError(nil)
 	}
 	if c.Pending {
 		// writers at both ends push data until they block (stalled path) or for 150 ms
@@ -450,6 +457,19 @@ func propStop(c StopCase) (o pbt.Outcome) {
 			}
 		}
 		time.Sleep(60 * time.Millisecond)
+	}
+	if c.Fault == 3 {
+		// data is in flight and unacknowledged by now: from here on the host
+		// cannot send at all, so the next retransmission attempt fails
+		if !c.Pending {
+			for i := range pairs {
+				pairs[i].c.Write(make([]byte, 1000))
+				pairs[i].s.Write(make([]byte, 1000))
+			}
+			time.Sleep(20 * time.Millisecond)
+		}
+		pn.SetSendError(syscall.ENETUNREACH)
+		time.Sleep(300 * time.Millisecond)
 	}
 	// the action, possibly repeated concurrently
 	graceCh := make(chan time.Duration, 1)
@@ -492,7 +512,7 @@ func propStop(c StopCase) (o pbt.Outcome) {
 	}
 	actionDone := make(chan struct{})
 	go func() { awg.Wait(); close(actionDone) }()
-	faultName := []string{"network intact", "TCP reset / UDP black-hole", "frozen path"}[c.Fault]
+	faultName := []string{"network intact", "TCP reset / UDP black-hole", "frozen path", "UDP black-hole, then every send fails"}[c.Fault]
 	o.Label("udp=%v", c.UDP)
 	o.Label("action=%d", c.Action)
 	o.Label("fault=%d", c.Fault)
